@@ -65,11 +65,11 @@ def main():
             text = demo_src.read_text()
             demo = wt.parent / f"{wt.name}_demo{k}.py"
             rel = (r'pathlib\.Path\(__file__\)\.resolve\(\)\.parent\.parent'
-                   r'\s*/\s*"wt[234567]?_C\d+"')
+                   r'\s*/\s*"wt\w*_C\d+"')
             text_e = re.sub(rel, f'pathlib.Path("{wt}")', text)
             text_s = re.sub(rel, 'pathlib.Path("/repo")', text)
-            demo.write_text(re.sub(r"/tmp/seed/wt[234567]?_C\d+", str(wt), text_e))
-            stored_demo = re.sub(r"/tmp/seed/wt[234567]?_C\d+", "/repo", text_s)
+            demo.write_text(re.sub(r"/tmp/seed/wt\w*_C\d+", str(wt), text_e))
+            stored_demo = re.sub(r"/tmp/seed/wt\w*_C\d+", "/repo", text_s)
             meta = json.loads((out / f"meta{k}.json").read_text())
             env = f"cd {wt} && PYTHONPATH={wt}"
             sh(f"git -C {wt} checkout -- . && git -C {wt} clean -fdq -e '*.so' "
